@@ -82,7 +82,7 @@ var probeNames = []string{
 	"workload_a", "workload_b", "workload_c", "record_flow", "client_wrong_credentials_rejected",
 	"challenge_checked", "valid_accepted", "setup_base_url_form_accepted", "setup_base_url_form_rejected",
 	"uri_abs_path_form_accepted", "uri_abs_path_form_rejected", "nonce_of_other_connection", "algorithm_absent_md5",
-	"url_with_query", "url_with_escapes", "unicode_credentials",
+	"url_with_query", "url_with_escapes", "url_at_then_percent", "unicode_credentials",
 }
 
 func methodProbe(m int) string {
@@ -176,6 +176,9 @@ func commonProbes(w *sys.World, sc *Scenario) {
 	}
 	if strings.Contains(sc.URL, "%") {
 		w.Probe("url_with_escapes")
+	}
+	if i := strings.Index(sc.URL, "@"); i >= 0 && strings.Contains(sc.URL[i:], "%") {
+		w.Probe("url_at_then_percent")
 	}
 	if hasNonASCII(sc.User) || hasNonASCII(sc.Pass) {
 		w.Probe("unicode_credentials")
